@@ -1,1 +1,485 @@
-fn main(){}
+//! C14 (part "stack") — scion-stack's SCMP handling: DefaultEchoHandler answers exactly the
+//! well-formed echo requests, faithfully and over the reversed path; the socket's receive loop
+//! hands SCMP errors to the application-side receivers, never answers them, and datagram
+//! delivery is unaffected by interleaved SCMP traffic.
+
+use std::net::IpAddr;
+
+use p_sciparse::spec::fill;
+use proptest::prelude::*;
+use refmodel::{
+    router,
+    wire::{self as rw, RHeader, RHop, RInfo, RPath, RStd},
+};
+use scion_stack::{
+    stack::scmp_handler::{DefaultEchoHandler, ScmpHandler},
+    verif::socket as hook,
+};
+use sciparse::{
+    address::ip_socket_addr::ScionSocketIpAddr,
+    core::{encode::WireEncode, view::View},
+    dataplane_path::view::ScionDpPathViewExt,
+    identifier::isd_asn::IsdAsn,
+    packet::view::ScionRawPacketView,
+    payload::scmp::model::ScmpErrorMessage,
+};
+use serde::{Deserialize, Serialize};
+use vcore::{CheckResult, Ctx, Fail, Obs, Sub, ensure, idx};
+
+#[derive(Clone, Debug, Serialize, Deserialize)]
+enum PathK {
+    Empty,
+    /// standard path as delivered at the destination (pointers at the last hop) unless `at` moves them
+    Std { lens: Vec<u8>, cons: Vec<bool>, at: Option<(u8, u8)>, seed: u64 },
+    OneHop { seed: u64, second_set: bool },
+}
+
+#[derive(Clone, Debug, Serialize, Deserialize)]
+enum L4 {
+    Udp { sport: u16, dport: u16, len: u16 },
+    EchoRequest { id: u16, seq: u16, len: u16, bad_checksum: bool },
+    EchoReply { id: u16, seq: u16, len: u16 },
+    Traceroute { reply: bool },
+    /// error message (type index, code), quoting `quote` bytes; `nested`: the quote is itself an SCMP error packet
+    Error { ty: u8, code: u8, quote: u16, nested: bool, bad_checksum: bool },
+    UnknownInfo { ty: u8, len: u16 },
+    /// SCMP cut inside its header / fixed part
+    Truncated { ty: u8, keep: u8 },
+    OtherProto { proto: u8, len: u16 },
+}
+
+#[derive(Clone, Debug, Serialize, Deserialize)]
+struct Pkt {
+    /// host kinds: 0 v4, 1 v6 (source may also be 2 = service address)
+    src_kind: u8,
+    dst_kind: u8,
+    src_ia: u64,
+    path: PathK,
+    l4: L4,
+    seed: u64,
+}
+
+const LOCAL_IA: u64 = 0x0001_ff00_0000_0110;
+
+fn hostb(kind: u8, last: u8) -> (u8, Vec<u8>) {
+    match kind % 3 {
+        0 => (0x0, vec![10, 0, 0, last]),
+        1 => {
+            let mut a = vec![0u8; 16];
+            a[0] = 0xfd;
+            a[15] = last;
+            (0x3, a)
+        }
+        _ => (0x4, vec![0, 2, 0, 0]),
+    }
+}
+
+fn build_path(p: &PathK) -> (u8, RPath) {
+    match p {
+        PathK::Empty => (0, RPath::Empty),
+        PathK::OneHop { seed, second_set } => {
+            let info = RInfo { flags: 1, rsv: 0, seg_id: *seed as u16, ts: 1_700_000_000 };
+            let h0 = RHop { flags: 0, exp: 63, ing: 0, eg: 3, mac: [(*seed >> 8) as u8, 2, 3, 4, 5, 6] };
+            let h1 = if *second_set { RHop { flags: 0, exp: 63, ing: 9, eg: 0, mac: [9, 8, 7, 6, 5, (*seed >> 16) as u8] } } else { RHop { flags: 0, exp: 0, ing: 0, eg: 0, mac: [0; 6] } };
+            (2, RPath::OneHop { info, hops: [h0, h1] })
+        }
+        PathK::Std { lens, cons, at, seed } => {
+            let mut seg_len = [0u8; 3];
+            let mut infos = vec![];
+            let mut hops = vec![];
+            let mut k = 0u16;
+            for (i, l) in lens.iter().take(3).enumerate() {
+                let l = (*l).clamp(1, 20);
+                seg_len[i] = l;
+                infos.push(RInfo { flags: *cons.get(i).unwrap_or(&true) as u8, rsv: 0, seg_id: (seed >> (i * 8)) as u16, ts: 1_700_000_000 + i as u32 });
+                for _ in 0..l {
+                    k += 1;
+                    hops.push(RHop { flags: 0, exp: 63, ing: k, eg: k + 100, mac: [k as u8, (*seed >> 3) as u8, 3, 4, 5, 6] });
+                }
+            }
+            let n = hops.len();
+            let (ci, ch) = match at {
+                Some((ci, ch)) => (*ci % 4, *ch % 64),
+                None => ((infos.len() - 1) as u8, (n - 1) as u8),
+            };
+            (1, RPath::Std(RStd { curr_inf: ci, curr_hf: ch, rsv: 0, seg_len, infos, hops }))
+        }
+    }
+}
+
+fn scmp_bytes(h: &RHeader, ty: u8, code: u8, body: &[u8], bad: bool) -> Vec<u8> {
+    let mut m = vec![ty, code, 0, 0];
+    m.extend_from_slice(body);
+    let mut c = rw::compute_checksum(h, rw::SCMP_PROTO, &m, 2);
+    if bad {
+        c = c.wrapping_add(1);
+        if c == 0xffff || c == 0 {
+            c = 0x1234;
+        }
+    }
+    m[2..4].copy_from_slice(&c.to_be_bytes());
+    m
+}
+
+const ERR_TYPES: [u8; 8] = [1, 2, 4, 5, 6, 3, 100, 127];
+
+/// (bytes, header) of the packet as it arrives at the socket bound in LOCAL_IA
+fn build(p: &Pkt) -> (Vec<u8>, RHeader, Vec<u8>) {
+    let (stl, shost) = hostb(p.src_kind, 7);
+    let (dtl, dhost) = hostb(p.dst_kind % 2, 1);
+    let (pt, path) = build_path(&p.path);
+    let plen = match &path {
+        RPath::Empty => 0,
+        RPath::OneHop { .. } => 32,
+        RPath::Std(s) => 4 + 8 * s.infos.len() + 12 * s.hops.len(),
+        _ => 0,
+    };
+    let mut h = RHeader {
+        version: 0, tc: 0, flow: 3, next: rw::SCMP_PROTO, hdr_units: ((28 + dhost.len() + shost.len() + plen) / 4) as u8, payload_len: 0, path_type: pt,
+        dst_tl: dtl, src_tl: stl, rsv: 0, dst_ia: LOCAL_IA, src_ia: p.src_ia, dst_host: dhost, src_host: shost, path,
+    };
+    let l4: Vec<u8> = match &p.l4 {
+        L4::Udp { sport, dport, len } => {
+            h.next = rw::UDP_PROTO;
+            let data = fill(*len as usize, p.seed);
+            let mut m = vec![];
+            m.extend_from_slice(&sport.to_be_bytes());
+            m.extend_from_slice(&dport.to_be_bytes());
+            m.extend_from_slice(&((8 + data.len()) as u16).to_be_bytes());
+            m.extend_from_slice(&[0, 0]);
+            m.extend_from_slice(&data);
+            let ck = rw::compute_checksum(&h, rw::UDP_PROTO, &m, 6);
+            m[6..8].copy_from_slice(&ck.to_be_bytes());
+            m
+        }
+        L4::EchoRequest { id, seq, len, bad_checksum } => {
+            let mut b = vec![];
+            b.extend_from_slice(&id.to_be_bytes());
+            b.extend_from_slice(&seq.to_be_bytes());
+            b.extend_from_slice(&fill(*len as usize, p.seed ^ 1));
+            scmp_bytes(&h, 128, 0, &b, *bad_checksum)
+        }
+        L4::EchoReply { id, seq, len } => {
+            let mut b = vec![];
+            b.extend_from_slice(&id.to_be_bytes());
+            b.extend_from_slice(&seq.to_be_bytes());
+            b.extend_from_slice(&fill(*len as usize, p.seed ^ 2));
+            scmp_bytes(&h, 129, 0, &b, false)
+        }
+        L4::Traceroute { reply } => scmp_bytes(&h, if *reply { 131 } else { 130 }, 0, &[0u8; 20], false),
+        L4::Error { ty, code, quote, nested, bad_checksum } => {
+            let ty = ERR_TYPES[(*ty % 8) as usize];
+            let mut b = vec![0u8; rw::RScmp::fixed_len(ty).unwrap_or(4)];
+            if *nested {
+                // the quoted packet is itself an SCMP error packet (empty path, v4 hosts)
+                let qh = RHeader { version: 0, tc: 0, flow: 1, next: rw::SCMP_PROTO, hdr_units: 9, payload_len: 8, path_type: 0, dst_tl: 0, src_tl: 0, rsv: 0, dst_ia: p.src_ia, src_ia: LOCAL_IA, dst_host: vec![10, 0, 0, 7], src_host: vec![10, 0, 0, 1], path: RPath::Empty };
+                let mut q = rw::encode_header(&qh);
+                q.extend_from_slice(&scmp_bytes(&qh, 1, 4, &[0u8; 4], false));
+                b.extend_from_slice(&q);
+            }
+            b.extend_from_slice(&fill(*quote as usize, p.seed ^ 3));
+            scmp_bytes(&h, ty, *code, &b, *bad_checksum)
+        }
+        L4::UnknownInfo { ty, len } => scmp_bytes(&h, 132u8.saturating_add(*ty % 120), 0, &fill(*len as usize, p.seed), false),
+        L4::Truncated { ty, keep } => {
+            let full = scmp_bytes(&h, [128u8, 129, 1, 4, 5, 6, 130][(*ty % 7) as usize], 0, &[0u8; 4], false);
+            full[..(*keep as usize % 8).min(full.len())].to_vec()
+        }
+        L4::OtherProto { proto, len } => {
+            h.next = if *proto == rw::SCMP_PROTO || *proto == rw::UDP_PROTO { 6 } else { *proto };
+            fill(*len as usize, p.seed)
+        }
+    };
+    h.payload_len = l4.len() as u16;
+    let mut bytes = rw::encode_header(&h);
+    bytes.extend_from_slice(&l4);
+    (bytes, h, l4)
+}
+
+fn reversed(h: &RHeader) -> Option<Option<RPath>> {
+    // Some(Some(p)) expected reply path; Some(None): reply path not judged; None: not reversible
+    match &h.path {
+        RPath::Empty => Some(Some(RPath::Empty)),
+        RPath::Std(p) => {
+            let b: usize = p.seg_len.iter().take_while(|l| **l != 0).map(|l| *l as usize).sum();
+            let nseg = p.seg_len.iter().take_while(|l| **l != 0).count();
+            if b != p.hops.len() || (p.curr_hf as usize) >= p.hops.len() || (p.curr_inf as usize) >= nseg {
+                return None;
+            }
+            // pointers must be consistent
+            let mut cum = 0usize;
+            let mut seg_of = 0usize;
+            for (i, l) in p.seg_len.iter().enumerate().take(nseg) {
+                if (p.curr_hf as usize) < cum + *l as usize {
+                    seg_of = i;
+                    break;
+                }
+                cum += *l as usize;
+            }
+            if seg_of != p.curr_inf as usize {
+                return Some(None);
+            }
+            Some(Some(RPath::Std(router::reverse(p))))
+        }
+        RPath::OneHop { .. } => Some(None),
+        _ => Some(None),
+    }
+}
+
+/// judges an echo reply against its request; `req` is the request's header and SCMP message
+fn judge_reply(reply: &[u8], req_h: &RHeader, req_msg: &[u8], what: &str) -> CheckResult {
+    let h = rw::decode_header(reply).map_err(|e| Fail::new(format!("{what}:reply-header-unparseable"), format!("{e:?}")))?;
+    ensure!(h.next == rw::SCMP_PROTO, format!("{what}:reply-not-scmp"), "next {}", h.next);
+    let m = &reply[h.header_len()..];
+    ensure!(m.len() == h.payload_len as usize, format!("{what}:reply-payload-length-field"), "PayloadLen {} vs {}", h.payload_len, m.len());
+    let s = rw::decode_scmp(m).ok_or_else(|| Fail::new(format!("{what}:reply-too-short"), String::new()))?;
+    ensure!(s.ty == 129 && s.code == 0, format!("{what}:reply-is-not-an-echo-reply"), "type {} code {}", s.ty, s.code);
+    ensure!(rw::checksum_verifies(&h, rw::SCMP_PROTO, m), format!("{what}:reply-checksum-invalid"), "len {}", m.len());
+    ensure!(s.body == req_msg[4..], format!("{what}:identifier-sequence-or-data-differ"), "request {:?}.. reply {:?}..", &req_msg[4..req_msg.len().min(16)], &s.body[..s.body.len().min(12)]);
+    ensure!(h.dst_ia == req_h.src_ia && h.dst_host == req_h.src_host && h.dst_tl == req_h.src_tl, format!("{what}:reply-not-addressed-to-requester"), "reply to {:x} {:?}, requester {:x} {:?}", h.dst_ia, h.dst_host, req_h.src_ia, req_h.src_host);
+    ensure!(h.src_ia == req_h.dst_ia && h.src_host == req_h.dst_host && h.src_tl == req_h.dst_tl, format!("{what}:reply-source-is-not-the-requested-address"), "reply from {:x} {:?}", h.src_ia, h.src_host);
+    if let Some(Some(want)) = reversed(req_h) {
+        ensure!(h.path == want, format!("{what}:reply-path-is-not-the-reversed-request-path"), "reply path {:?}, expected {want:?}", h.path);
+    }
+    Ok(())
+}
+
+fn sut_accepts(bytes: &[u8]) -> bool {
+    matches!(ScionRawPacketView::try_from_slice(bytes), Ok((_, rest)) if rest.is_empty())
+}
+
+// ---- echo handler ---------------------------------------------------------------------------------
+
+fn check_echo(p: &Pkt, obs: &mut Obs) -> CheckResult {
+    let (bytes, h, l4) = build(p);
+    if !sut_accepts(&bytes) {
+        obs.label("packet-not-parseable");
+        return Ok(());
+    }
+    let reply = vcore::no_panic("DefaultEchoHandler::handle", || {
+        let (view, _) = ScionRawPacketView::try_from_slice(&bytes).unwrap();
+        DefaultEchoHandler::new().handle(view).map(|r| r.try_encode_to_vec().map_err(|e| e.to_string()))
+    })?;
+    let valid_request = matches!(p.l4, L4::EchoRequest { bad_checksum: false, .. });
+    let rev = reversed(&h);
+    match reply {
+        None => {
+            // a well-formed request over a reversible path must be answered
+            ensure!(!(valid_request && matches!(rev, Some(Some(_)))), "echo:valid-request-not-answered", "{p:?}");
+            obs.label(if valid_request { "request-unanswerable" } else { "no-reply" });
+            if !valid_request && h.next == rw::SCMP_PROTO {
+                obs.nontrivial(&format!("{p:?}"));
+            }
+        }
+        Some(r) => {
+            let kind = match &p.l4 {
+                L4::EchoRequest { bad_checksum: true, .. } => "echo-request-with-wrong-checksum",
+                L4::EchoRequest { .. } => "",
+                L4::Error { .. } => "scmp-error",
+                L4::Truncated { .. } => "truncated-scmp",
+                _ => "other-message",
+            };
+            ensure!(valid_request, format!("echo:reply-triggered-by:{kind}"), "{p:?}");
+            ensure!(rev.is_some(), "echo:reply-over-irreversible-path", "{p:?}");
+            let r = r.map_err(|e| Fail::new("echo:reply-not-encodable", format!("{e}; {p:?}")))?;
+            judge_reply(&r, &h, &l4, "echo")?;
+            obs.label("echo-answered");
+            obs.nontrivial(&format!("{p:?}"));
+        }
+    }
+    Ok(())
+}
+
+// ---- socket receive loop ------------------------------------------------------------------------------
+
+#[derive(Clone, Debug, Serialize, Deserialize)]
+struct SockCase {
+    pkts: Vec<Pkt>,
+    with_echo: bool,
+    with_path: bool,
+    buf: u16,
+}
+
+fn err_fields(e: &ScmpErrorMessage) -> (u8, u8, usize) {
+    match e {
+        ScmpErrorMessage::DestinationUnreachable(m) => (1, u8::from(m.code), m.get_offending_packet().len()),
+        ScmpErrorMessage::PacketTooBig(m) => (2, 0, m.get_offending_packet().len()),
+        ScmpErrorMessage::ParameterProblem(m) => (4, u8::from(m.code), m.get_offending_packet().len()),
+        ScmpErrorMessage::ExternalInterfaceDown(m) => (5, 0, m.get_offending_packet().len()),
+        ScmpErrorMessage::InternalConnectivityDown(m) => (6, 0, m.get_offending_packet().len()),
+    }
+}
+
+fn check_sock(c: &SockCase, obs: &mut Obs) -> CheckResult {
+    let mut rx = vec![];
+    let mut built = vec![];
+    for p in &c.pkts {
+        let (bytes, h, l4) = build(p);
+        // the underlay contract: only packets that decode are handed to the socket
+        if !sut_accepts(&bytes) {
+            continue;
+        }
+        rx.push(bytes.clone());
+        built.push((p.clone(), bytes, h, l4));
+    }
+    let local = ScionSocketIpAddr::new(IsdAsn(LOCAL_IA), IpAddr::from([10, 0, 0, 1]), 5001);
+    let (sock, mem, log) = hook::udp_socket_over(local, rx, c.with_echo);
+    let rt = tokio::runtime::Builder::new_current_thread().build().map_err(|e| Fail::new("harness:tokio", e.to_string()))?;
+    let cap = (c.buf as usize).max(1);
+    let got: Vec<(usize, Vec<u8>, String, Option<Vec<u8>>)> = vcore::no_panic("PathUnawareUdpScionSocket::recv_from", || {
+        rt.block_on(async {
+            let mut out = vec![];
+            let mut buf = vec![0u8; cap];
+            loop {
+                if c.with_path {
+                    match sock.recv_from_with_path(&mut buf).await {
+                        Ok((n, src, path)) => out.push((n, buf[..n.min(cap)].to_vec(), src.to_string(), Some(path.dp_path().as_slice().to_vec()))),
+                        Err(_) => break,
+                    }
+                } else {
+                    match sock.recv_from(&mut buf).await {
+                        Ok((n, src)) => out.push((n, buf[..n.min(cap)].to_vec(), src.to_string(), None)),
+                        Err(_) => break,
+                    }
+                }
+            }
+            out
+        })
+    })?;
+    ensure!(mem.pending() == 0, "socket:receive-loop-stopped-early", "{} packets left in the underlay", mem.pending());
+    // expected
+    let mut want_dgrams = vec![];
+    let mut want_errors = vec![];
+    let mut want_replies = vec![];
+    for (p, _bytes, h, l4) in &built {
+        match &p.l4 {
+            L4::Udp { len, .. } if p.src_kind % 3 != 2 => {
+                let data = &l4[8..];
+                debug_assert_eq!(data.len(), *len as usize);
+                want_dgrams.push((data.to_vec(), h.clone()));
+            }
+            L4::Error { ty, bad_checksum: false, .. } if matches!(ERR_TYPES[(*ty % 8) as usize], 1 | 2 | 4 | 5 | 6) => want_errors.push((ERR_TYPES[(*ty % 8) as usize], l4.clone(), h.clone())),
+            L4::EchoRequest { bad_checksum: false, .. } if c.with_echo && reversed(h).is_some() => want_replies.push((h.clone(), l4.clone(), matches!(reversed(h), Some(Some(_))))),
+            _ => {}
+        }
+    }
+    obs.evals(built.len() as u64);
+    let desc = || format!("{} packets: {:?}", built.len(), built.iter().map(|b| format!("{:?}", b.0.l4)).collect::<Vec<_>>());
+    // datagrams: exactly those, in order, intact
+    ensure!(got.len() == want_dgrams.len(), "socket:datagram-count-differs", "application received {} datagrams, {} were sent; {}", got.len(), want_dgrams.len(), desc());
+    for (i, ((n, data, src, path), (wdata, wh))) in got.iter().zip(want_dgrams.iter()).enumerate() {
+        ensure!(*n == wdata.len(), "socket:datagram-length-differs", "datagram {i}: reported {n} bytes, sent {}", wdata.len());
+        let k = wdata.len().min(cap);
+        ensure!(data[..k.min(data.len())] == wdata[..k], "socket:datagram-payload-differs", "datagram {i}");
+        let want_src = {
+            let ia = IsdAsn(wh.src_ia);
+            let ip: IpAddr = if wh.src_host.len() == 4 { IpAddr::from([wh.src_host[0], wh.src_host[1], wh.src_host[2], wh.src_host[3]]) } else { let mut a = [0u8; 16]; a.copy_from_slice(&wh.src_host); IpAddr::from(a) };
+            ScionSocketIpAddr::new(ia, ip, u16::from_be_bytes([built.iter().find(|b| b.2 == *wh && matches!(b.0.l4, L4::Udp { .. })).map(|b| b.3[0]).unwrap_or(0), built.iter().find(|b| b.2 == *wh && matches!(b.0.l4, L4::Udp { .. })).map(|b| b.3[1]).unwrap_or(0)])).to_string()
+        };
+        ensure!(*src == want_src, "socket:datagram-sender-differs", "datagram {i}: sender {src}, expected {want_src}");
+        if let Some(pb) = path {
+            ensure!(*pb == wh.path_bytes(), "socket:datagram-path-differs", "datagram {i}: path bytes differ");
+        }
+    }
+    // errors: every well-formed error of an assigned type reaches the receivers, in order
+    let rep = log.reported();
+    let rep_f: Vec<(u8, usize)> = rep.iter().map(|(e, _)| { let f = err_fields(e); (f.0, f.2) }).collect();
+    let want_f: Vec<(u8, usize)> = want_errors.iter().map(|(ty, l4, _)| (*ty, l4.len() - 4 - rw::RScmp::fixed_len(*ty).unwrap())).collect();
+    // errors with a wrong checksum may or may not be reported: compare after removing them from
+    // what was reported beyond the expected list (only count/ordering of the well-formed ones is claimed)
+    let bad_ck_errors = built.iter().filter(|b| matches!(b.0.l4, L4::Error { bad_checksum: true, .. })).count();
+    if bad_ck_errors == 0 {
+        ensure!(rep_f == want_f, "socket:scmp-errors-reported-differ", "reported (type, quote length) {rep_f:?}, expected {want_f:?}; {}", desc());
+        for ((_, pb), (_, _, wh)) in rep.iter().zip(want_errors.iter()) {
+            ensure!(*pb == wh.path_bytes(), "socket:scmp-error-path-differs", "path handed to the receiver differs from the packet's path");
+        }
+    } else {
+        ensure!(rep_f.len() >= want_f.len() && rep_f.len() <= want_f.len() + bad_ck_errors, "socket:scmp-errors-reported-differ", "reported {rep_f:?}, expected {want_f:?} (+ up to {bad_ck_errors} with wrong checksum)");
+        obs.label("with-wrong-checksum-errors");
+    }
+    // replies: one per valid echo request when the echo handler is installed, nothing else
+    // (requests over one-hop paths / inconsistent pointers may or may not be answerable)
+    let sent = mem.sent();
+    let mut si = 0usize;
+    for (rh, rl4, must) in want_replies.iter() {
+        match sent.get(si) {
+            Some(r) if judge_reply(r, rh, rl4, "socket").is_ok() => si += 1,
+            Some(r) if *must => {
+                judge_reply(r, rh, rl4, "socket")?;
+            }
+            None if *must => return Err(Fail::new("socket:echo-request-not-answered", format!("socket sent {} packets; {}", sent.len(), desc()))),
+            _ => {}
+        }
+    }
+    ensure!(si == sent.len(), "socket:unexpected-reply-sent", "socket sent {} packets, {} are replies to well-formed echo requests; {}", sent.len(), si, desc());
+    obs.label(format!("dgrams-{}", want_dgrams.len().min(3)));
+    if !want_errors.is_empty() {
+        obs.label("errors-reported");
+    }
+    if si > 0 {
+        obs.label("echo-replied");
+    }
+    if !want_dgrams.is_empty() && (!want_errors.is_empty() || built.len() > want_dgrams.len()) {
+        obs.nontrivial(&format!("{c:?}"));
+    }
+    Ok(())
+}
+
+// ---- generators -----------------------------------------------------------------------------------------
+
+fn path_strategy() -> impl Strategy<Value = PathK> {
+    prop_oneof![
+        1 => Just(PathK::Empty),
+        5 => (proptest::collection::vec(1u8..8, 1..=3), proptest::collection::vec(any::<bool>(), 3), prop_oneof![4 => Just(None), 1 => any::<(u8, u8)>().prop_map(Some)], any::<u64>()).prop_map(|(lens, cons, at, seed)| PathK::Std { lens, cons, at, seed }),
+        1 => (proptest::collection::vec(18u8..=20, 3), proptest::collection::vec(any::<bool>(), 3), any::<u64>()).prop_map(|(lens, cons, seed)| PathK::Std { lens, cons, at: None, seed }),
+        1 => (any::<u64>(), any::<bool>()).prop_map(|(seed, second_set)| PathK::OneHop { seed, second_set }),
+    ]
+}
+
+fn l4_strategy(udp_weight: u32) -> impl Strategy<Value = L4> {
+    let len = || prop_oneof![3 => 0u16..32, 2 => 32u16..1300, 1 => 1300u16..9000];
+    prop_oneof![
+        udp_weight => (any::<u16>(), any::<u16>(), len()).prop_map(|(sport, dport, len)| L4::Udp { sport, dport, len }),
+        4 => (any::<u16>(), any::<u16>(), len(), prop_oneof![4 => Just(false), 1 => Just(true)]).prop_map(|(id, seq, len, bad_checksum)| L4::EchoRequest { id, seq, len, bad_checksum }),
+        1 => (any::<u16>(), any::<u16>(), len()).prop_map(|(id, seq, len)| L4::EchoReply { id, seq, len }),
+        1 => any::<bool>().prop_map(|reply| L4::Traceroute { reply }),
+        5 => (any::<u8>(), any::<u8>(), 0u16..1200, any::<bool>(), prop_oneof![5 => Just(false), 1 => Just(true)]).prop_map(|(ty, code, quote, nested, bad_checksum)| L4::Error { ty, code, quote, nested, bad_checksum }),
+        1 => (any::<u8>(), 0u16..64).prop_map(|(ty, len)| L4::UnknownInfo { ty, len }),
+        2 => (any::<u8>(), any::<u8>()).prop_map(|(ty, keep)| L4::Truncated { ty, keep }),
+        1 => (any::<u8>(), 0u16..64).prop_map(|(proto, len)| L4::OtherProto { proto, len }),
+    ]
+}
+
+fn pkt_strategy(udp_weight: u32) -> impl Strategy<Value = Pkt> {
+    (0u8..3, 0u8..2, prop_oneof![Just(LOCAL_IA), Just(0x0002_ff00_0000_0220u64), any::<u64>()], path_strategy(), l4_strategy(udp_weight), any::<u64>())
+        .prop_map(|(src_kind, dst_kind, src_ia, path, l4, seed)| Pkt { src_kind, dst_kind, src_ia, path, l4, seed })
+}
+
+fn run(ctx: &Ctx) {
+    let n = ctx.tier.pick(300_000, 6_000_000);
+    ctx.run_prop("echo-handler", n, || pkt_strategy(1), check_echo);
+    let n = ctx.tier.pick(100_000, 3_000_000);
+    ctx.run_prop("socket-receive-loop", n, || (proptest::collection::vec(pkt_strategy(6), 1..12), any::<bool>(), any::<bool>(), prop_oneof![Just(65535u16), Just(2048), 1u16..64]).prop_map(|(pkts, with_echo, with_path, buf)| SockCase { pkts, with_echo, with_path, buf }), check_sock);
+}
+
+fn post(ctx: &Ctx) {
+    ctx.require_label("echo-answered", 2000);
+    ctx.require_label("no-reply", 5000);
+    ctx.require_label("errors-reported", 1000);
+    ctx.require_label("echo-replied", 500);
+}
+
+fn main() {
+    let _ = idx(0, 1);
+    let subs = [
+        Sub { name: "echo-handler", run, replay: |c, v| c.replay_case::<Pkt>("c14s", v, check_echo) },
+        Sub { name: "socket-receive-loop", run: |_| {}, replay: |c, v| c.replay_case::<SockCase>("c14s", v, check_sock) },
+    ];
+    vcore::main(
+        "C14",
+        "part stack. Received packets are built by the reference encoder: source host v4/v6/service, empty / one-hop / standard paths (1-3 segments, 1-60 hop fields, pointers at the last hop as delivered or anywhere), payload = UDP, echo request (valid or wrong checksum), echo reply, traceroute, SCMP error of every assigned and three unassigned types (optionally quoting an SCMP error packet, optionally wrong checksum), unknown informational type, SCMP cut inside header/fixed part, other protocols. (1) DefaultEchoHandler::handle: a reply is produced IFF the packet is a well-formed echo request (valid checksum) over a reversible path; the reply, read by the reference decoder, is an echo reply with identical identifier, sequence number and data, a valid checksum, truthful PayloadLen, destination = requester address, source = requested address, path = reference reversal of the request's path. (2) The real PathUnawareUdpScionSocket over an in-memory underlay (verif-hooks) receives sequences of 1-11 such packets through recv_from / recv_from_with_path: the application gets exactly the UDP datagrams, in order, with length, payload, sender (and path); the registered ScmpErrorReceiver gets exactly the well-formed SCMP errors of assigned types, in order, with the packet's path; the socket sends exactly one echo reply per well-formed echo request when the echo handler is installed and nothing otherwise - in particular nothing for SCMP errors, truncated SCMP or wrong checksums. Non-trivial = SCMP packet that must not be answered / answered echo / datagrams interleaved with SCMP traffic.",
+        &["SCMP errors with a wrong checksum may or may not be reported to receivers (not claimed)", "one-hop request paths: the reply's path bytes are not judged (C12 covers one-hop reversal)", "UDP datagrams from service-address sources are skipped by the socket (documented in its code) and not expected"],
+        &subs,
+        post,
+    );
+}
